@@ -234,7 +234,8 @@ def strategies():
         st.sampled_from(["ID", "Name", "Parent", "Alias", "Note", "gene_id", "transcript_id", "note", "k1", "k2", "Dbxref"]),
         st.from_regex(r"[A-Za-z_][A-Za-z0-9_.\-]{0,7}", fullmatch=True),
     )
-    S.word_first = st.one_of(st.sampled_from(["ID", "Name", "gene_id", "Parent", "k1"]), word_first)
+    S.word_first = st.one_of(st.sampled_from(["ID", "Name", "gene_id", "Parent", "k1"]), word_first,
+                             st.sampled_from(["Näme", "ключ", "名前", "é1"]))  # \w+ is not ASCII-only
     S.word_key = word_key
 
     reserved_rich = st.text(
@@ -309,7 +310,7 @@ def strategies():
     S.cols = cols
 
     @st.composite
-    def attrs(draw, style, min_n=0, max_n=4, allow_flags=True, max_vals=3, first_key=None, keys=None):
+    def attrs(draw, style, min_n=0, max_n=4, allow_flags=True, max_vals=3, first_key=None, keys=None, empty_items=False):
         n = draw(st.integers(min_n, max_n))
         out = []
         used = set()
@@ -330,6 +331,10 @@ def strategies():
                 nv = draw(st.sampled_from([1, 1, 1, 2, 3][: 2 + max_vals]))
                 nv = min(nv, max_vals)
                 vals = draw(st.lists(value_for(style), min_size=nv, max_size=nv))
+                if empty_items and i > 0 and nv >= 1 and draw(st.integers(0, 5)) == 0:
+                    # a stray comma ("Parent=m1," / "Dbxref=a,,b"): an empty item next to non-empty ones
+                    pos = draw(st.integers(1, len(vals)))
+                    vals = vals[:pos] + [""] + vals[pos:]
                 out.append([k, vals])
         return out
 
